@@ -153,3 +153,99 @@ def normalize(f, t, depth=0):
     if k in ("hex", "ser"):
         return (k, normalize(f, t[1], depth + 1))
     return t
+
+
+def _array_items(t):
+    """elements when t is (an iterator over) an array literal: array{a, b, c}, into_iter(array{..}), iter(array{..})"""
+    for _ in range(6):
+        if t[0] == "agg" and t[1] == "array":
+            return list(t[2])
+        if t[0] == "call" and ITER_VIEW.search(t[1]) and t[2]:
+            t = t[2][0]
+            continue
+        if t[0] == "proj" and not [p for p in t[2] if p != "*"]:
+            t = t[1]
+            continue
+        break
+    return None
+
+
+def _find_array_next(t, depth=0):
+    """first sub-term `Iterator::next(<array literal iterator>)` of t, or None"""
+    if depth > 40 or not isinstance(t, tuple) or not t:
+        return None
+    if t[0] == "call" and t[1] == "std::iter::Iterator::next" and len(t[2]) == 1 and _array_items(t[2][0]) is not None:
+        return t
+    kids = []
+    if t[0] == "call":
+        kids = list(t[2])
+    elif t[0] in ("agg",):
+        kids = list(t[2])
+    elif t[0] in ("vec", "buf", "phi"):
+        kids = list(t[1])
+    elif t[0] == "write":
+        kids = list(t[2])
+    elif t[0] == "proj":
+        kids = [t[1]]
+    elif t[0] in ("cast", "un"):
+        kids = [t[2]]
+    elif t[0] == "bin":
+        kids = [t[2], t[3]]
+    elif t[0] in ("hex", "ser"):
+        kids = [t[1]]
+    for k_ in kids:
+        r = _find_array_next(k_, depth + 1)
+        if r is not None:
+            return r
+    return None
+
+
+def _replace(t, old, new, depth=0):
+    if depth > 40 or not isinstance(t, tuple) or not t:
+        return t
+    if t == old:
+        return new
+    k = t[0]
+    if k == "call":
+        return ("call", t[1], tuple(_replace(a, old, new, depth + 1) for a in t[2])) + tuple(t[3:])
+    if k == "agg":
+        return ("agg", t[1], [_replace(a, old, new, depth + 1) for a in t[2]]) + tuple(t[3:])
+    if k in ("vec", "buf", "phi"):
+        return (k, [_replace(a, old, new, depth + 1) for a in t[1]])
+    if k == "write":
+        return ("write", t[1], [_replace(a, old, new, depth + 1) for a in t[2]])
+    if k == "proj":
+        from terms import simplify_proj
+        inner = _replace(t[1], old, new, depth + 1)
+        if inner is not t[1]:
+            proj = tuple(p for p in t[2] if p != "*")
+            # element of an array iterator: next(..) is Some(element)
+            if proj[:2] == ("as Some", ".0"):
+                proj = proj[2:]
+            return simplify_proj(inner, proj) if proj else inner
+        return t
+    if k in ("cast", "un"):
+        return (k, t[1], _replace(t[2], old, new, depth + 1))
+    if k == "bin":
+        return ("bin", t[1], _replace(t[2], old, new, depth + 1), _replace(t[3], old, new, depth + 1))
+    if k in ("hex", "ser"):
+        return (k, _replace(t[1], old, new, depth + 1))
+    return t
+
+
+def expand_rows(terms):
+    """`terms`: a tuple of terms that describe one site (e.g. tag and data of an IndexEntry::new call).  If they mention an element
+    of an array literal that is being iterated (`for (a, b) in [(x1, y1), (x2, y2)]`, or the same through into_iter().map/
+    filter_map), return one tuple of terms per array element with the element substituted; otherwise [terms]."""
+    node = None
+    for t in terms:
+        node = _find_array_next(t)
+        if node is not None:
+            break
+    if node is None:
+        return [tuple(terms)]
+    items = _array_items(node[2][0])
+    out = []
+    for it in items:
+        out.append(tuple(_replace(t, node, it) for t in terms))
+    return out
